@@ -66,4 +66,41 @@ theorem idx_lt (s : GS) (i v : Nat) (h : idx s i = .ok v) : v < 256 := by
   · injection h with h; subst h; exact UInt8.toNat_lt _
   · simp at h
 
+theorem idx_ne_panic (s : GS) (i : Nat) (h : i < s.len) : idx s i ≠ .panic := by
+  rw [idx_ok s i h]; simp
+
+theorem slc_ne_panic (s : GS) (lo hi : Nat) (h1 : lo ≤ hi) (h2 : hi ≤ s.buf.length) : slc s lo hi ≠ .panic := by
+  rw [slc_ok s lo hi h1 h2]; simp
+
+theorem le_ne_panic (s : GS) (lo n : Nat) (h : lo + n ≤ s.buf.length) : le s lo n ≠ .panic := by
+  rw [le_ok s lo n h]; simp
+
+theorem be_ne_panic (s : GS) (lo n : Nat) (h : lo + n ≤ s.buf.length) : be s lo n ≠ .panic := by
+  rw [be_ok s lo n h]; simp
+
+theorem be_ne_fuel (s : GS) (lo n : Nat) : be s lo n ≠ .fuel := by
+  unfold be
+  exact bind_ne_fuel (slc_ne_fuel s lo (lo + n)) (fun a _ => by simp)
+
+theorem slc_eq_ok (s : GS) (lo hi : Nat) (t : GS) (h : slc s lo hi = .ok t) :
+    t = ⟨s.buf.drop lo, hi - lo⟩ ∧ lo ≤ hi ∧ hi ≤ s.buf.length := by
+  unfold slc at h
+  split at h
+  · injection h with h; rename_i hc; exact ⟨h.symm, hc.1, hc.2⟩
+  · simp at h
+
+theorem idx_eq_ok (s : GS) (i v : Nat) (h : idx s i = .ok v) : v = (s.buf.getD i 0).toNat ∧ i < s.len := by
+  unfold idx at h
+  split at h
+  · injection h with h; rename_i hc; exact ⟨h.symm, hc⟩
+  · simp at h
+
+theorem ok_ne_panic {α : Type} (a : α) : (Out.ok a) ≠ .panic := by simp
+theorem pure_ne_panic {α : Type} (a : α) : (pure a : Out α) ≠ .panic := by simp
+theorem err_ne_panic {α : Type} : (Out.err : Out α) ≠ .panic := by simp
+theorem ok_ne_fuel {α : Type} (a : α) : (Out.ok a) ≠ .fuel := by simp
+theorem pure_ne_fuel {α : Type} (a : α) : (pure a : Out α) ≠ .fuel := by simp
+theorem err_ne_fuel {α : Type} : (Out.err : Out α) ≠ .fuel := by simp
+theorem panic_ne_fuel {α : Type} : (Out.panic : Out α) ≠ .fuel := by simp
+
 end Diskfs.Parsers
